@@ -38,3 +38,11 @@ $OPENSSL req -x509 -newkey rsa:2048 -nodes -keyout expiredself.key.pem -out expi
 # "out of order" chain of an impostor: its own self-signed certificate (whose key it holds)
 # followed by the genuine server's valid certificate and the CA
 cat selfsigned.cert.pem good.cert.pem ca.cert.pem > evilchain.cert.pem; cp selfsigned.key.pem evilchain.key.pem
+# CA-signed leaf WITHOUT subjectAltName whose subject merely CONTAINS the name good.test (organisation
+# "good.test Hosting Ltd", common name good.test.attacker.example): valid for neither good.test nor anything else
+$OPENSSL req -newkey rsa:2048 -nodes -keyout nosan.key.pem -out nosan.csr -subj "/O=good.test Hosting Ltd/CN=good.test.attacker.example" 2>/dev/null
+printf "basicConstraints=CA:FALSE\nkeyUsage=digitalSignature,keyEncipherment\nextendedKeyUsage=serverAuth\n" > nosan.ext
+$OPENSSL x509 -req -in nosan.csr -CA ca.cert.pem -CAkey ca.key.pem -CAcreateserial -out nosan.cert.pem -days 36500 -extfile nosan.ext 2>/dev/null
+rm -f nosan.csr nosan.ext *.srl
+# an empty trust store (flavour rustlsnative: SSL_CERT_FILE points here)
+: > empty.pem
